@@ -318,7 +318,7 @@ def _merge_database_dicts(*database_dicts):
     # Copy to prevent writes to the original dict.
     # A weak copy is sufficient since we only modify two top levels.
     result = {
-        k1: v1.copy()
+        k1: copy.copy(v1)
         for k1, v1 in database_dicts[0].items()
     }
 
@@ -350,6 +350,6 @@ def _merge_database_dicts(*database_dicts):
                 f'{duplicate_keys}'
             )
 
-            result['alias'].update(database_dict['alias'])
+            result.setdefault('alias', {}).update(database_dict['alias'])
 
     return result
